@@ -9,6 +9,7 @@ import proto
 import send
 import fn
 import simple
+import walletfam
 from common import Outcome, log, run_tlc, write_evidence
 
 # property -> list of (module, cfg, workers, timeout_quick, timeout_thorough) exhaustive design-level models
@@ -17,7 +18,7 @@ _IX_T = _IX + [("Indexer.tla", "Indexer_c.cfg", 8, 1800, 1800), ("Indexer.tla", 
 LEVEL_A = {"C12": _IX, "C13": _IX, "C14": _IX}
 LEVEL_A_THOROUGH = {"C12": _IX_T, "C13": _IX_T, "C14": _IX_T}
 
-LEVELS = {"C27": "model_checking", "C36": "model_checking", "C26": "model_checking", "C29": "model_checking", "C20": "model_checking", "C12": "model_checking", "C13": "fault_enumeration", "C14": "model_checking"}
+LEVELS = {"C22": "model_checking", "C23": "model_checking", "C27": "model_checking", "C36": "model_checking", "C26": "model_checking", "C29": "model_checking", "C20": "model_checking", "C12": "model_checking", "C13": "fault_enumeration", "C14": "model_checking"}
 
 ASSUME_PROTO = [
     "content equality is judged on a digest of every table row except WRITE_TRANSACTION_STARTING_BLOCK_COUNT_TO_TIMESTAMP "
@@ -72,6 +73,11 @@ def run(prop, tier, seed, t0):
     elif prop in simple.TABLE:
         outcome, cov, wall = simple.run(prop, tier, seed)
         assumptions = ["the harness builds the inputs and projects the outputs; TLC judges"]
+    elif prop in walletfam.FAMILY:
+        outcome, cov, wall = walletfam.run(prop, tier, seed)
+        assumptions = ["the mock node (mockcore) stands in for bitcoind: its wallet owns the addresses it handed out, funds largest-first from unlocked outputs, and does not verify signatures",
+                       "rune amounts stay below 2^31 (TLC integers); rune ids are abstracted to their rank",
+                       "the driver reads balances, inscriptions and burned totals through the index's public query functions"]
     elif prop == "C20":
         outcome, cov, wall = send.run(prop, tier, seed)
         assumptions = ["all wallet scripts are taproot (the wallet only creates taproot descriptors); recipient is a taproot address",
@@ -81,7 +87,7 @@ def run(prop, tier, seed, t0):
         raise common.ToolError("no check registered for %s" % prop)
     states, distinct, runs = level_a(prop, tier)
     level = LEVELS.get(prop, "exploration")
-    if prop == "C20" or prop in fn.FAMILY or prop in simple.TABLE:
+    if prop == "C20" or prop in fn.FAMILY or prop in simple.TABLE or prop in walletfam.FAMILY:
         pass
     elif runs:
         cov["states"] = distinct
